@@ -199,6 +199,7 @@ def boundary_doubles():
               2.2250738585072014e-308, 2.225073858507201e-308, 4.35, 0.5, 1.5, 2.5, 8.41e21, 9007199254740993.0,
               1e300, 1e-300, 0.30000000000000004, 100.0, 1e6, 123456789012345680.0, 4.9406564584124654e-324):
         around(v, 1)
+    out += [0x7FF0000000000000, 0xFFF0000000000000, 0x7FF8000000000000]     # non-finite: run and counted, not required
     out += [0, 1 << 63, 1, 2, 3, 0x000FFFFFFFFFFFFF, 0x0010000000000000, 0x7FEFFFFFFFFFFFFF, 0xFFEFFFFFFFFFFFFF,
             0x8000000000000001]
     return out
@@ -213,6 +214,7 @@ def gen_doubles(rng, n):
     for b in bd:
         xs.append(b)
     kinds["boundary"] = len(bd)
+    kinds["nonfinite"] = sum(1 for b in bd if not is_finite_bits(b))
     while len(xs) < n:
         r = rng.below(100)
         if r < 40:
@@ -402,6 +404,31 @@ def gen_json_text(rng):
 
 
 # --------------------------------------------------------------------------- running
+def shrink_literal(h, t, ro, exp):
+    """greedy delta debugging on a failing documented literal: delete one character at a time while the
+    text stays in the documented grammar, below 2^63 for radix literals, and still fails"""
+    cur, cur_ro, cur_exp = t, ro, exp
+    for _ in range(40):
+        cands = []
+        for i in range(len(cur)):
+            u = cur[:i] + cur[i + 1:]
+            r = py_literal_value(u)
+            if r is not None and r != "OVER":
+                cands.append((u, hx16(r)))
+        if not cands:
+            break
+        outs = c.harness_lines_resilient(h, "c16-lit", [c.hexs(u) for u, _ in cands])
+        nxt = None
+        for (u, e), o in zip(cands, outs):
+            if o != e:
+                nxt = (u, o, e)
+                break
+        if nxt is None:
+            break
+        cur, cur_ro, cur_exp = nxt
+    return cur, cur_ro, cur_exp
+
+
 def parse_fields(line):
     d = {}
     for part in line.split(" "):
@@ -472,11 +499,11 @@ def main(argv):
     c.proof_step(res, PID)
     known = {e["class"]: e for e in c.open_known(PID)}
     quick = tier == "quick"
-    n_doubles = 3000 if quick else 100000
-    n_lits = 3000 if quick else 100000
-    n_tonum = 1500 if quick else 40000
-    n_json = 1500 if quick else 40000
-    n_cli = 2000 if quick else 40000
+    n_doubles = 3000 if quick else 40000
+    n_lits = 3000 if quick else 60000
+    n_tonum = 1500 if quick else 20000
+    n_json = 1500 if quick else 20000
+    n_cli = 2000 if quick else 20000
 
     # ---------------------------------------------------------------- NUMTEXT: doubles
     xs, kinds = gen_doubles(rng, n_doubles)
@@ -602,6 +629,7 @@ def main(argv):
 
     # ---------------------------------------------------------------- diff: literals
     lit_mism = []
+    lit_fail = []
     lit_hist = {}
     f25_hits = 0
     for j, ((t, cls), ro) in enumerate(zip(lits, lit_out)):
@@ -623,20 +651,22 @@ def main(argv):
         if ref is None:
             continue
         if ref == "OVER":
+            big = hx16(bits_of(float(int(t[2:].replace("_", ""), 16 if t[1] == "x" else 2))))
             if ro == "LITERR" and F25 in known:
                 f25_hits += 1
-            elif ro == "LITERR":
-                res.violation("a hexadecimal/binary literal >= 2^63 is rejected instead of denoting its value",
-                              {"kind": "c16-lit", "text": t, "observed": ro, "expected": "a number"})
-            elif ro != hx16(bits_of(float(int(t[2:].replace("_", ""), 16 if t[1] == "x" else 2)))):
-                res.violation("a hexadecimal/binary literal >= 2^63 denotes a wrong value",
-                              {"kind": "c16-lit", "text": t, "observed": ro})
+            elif ro != big:
+                lit_fail.append((t, ro, big, "a hexadecimal/binary literal >= 2^63 does not denote its value"))
             continue
         if ro != hx16(ref):
-            res.violation("a numeric literal does not denote its documented value correctly rounded",
-                          {"kind": "c16-lit", "text": t, "observed": ro, "expected": hx16(ref),
-                           "reference": "Python big-integer / correctly rounded float()",
-                           "rerun": "./check C16 --replay <this file>"})
+            lit_fail.append((t, ro, hx16(ref), "a numeric literal does not denote its documented value correctly rounded"))
+    # report the simplest failing literals, shrunk by deleting characters while the failure persists
+    lit_fail.sort(key=lambda x: (len(x[0]), x[0]))
+    for t, ro, exp, what in lit_fail[:3]:
+        t2, ro2, exp2 = shrink_literal(h, t, ro, exp)
+        res.violation(what, {"kind": "c16-lit", "text": t2, "observed": ro2, "expected": exp2,
+                             "found_as": t, "reference": "Python big-integer / correctly rounded float()",
+                             "other_failing_literals": len(lit_fail) - 1,
+                             "rerun": "./check C16 --replay <this file>"})
     if lit_mism:
         t, ro, mo = lit_mism[0]
         res.tie_broken("correspondence C16/LITERAL: model and implementation disagree on %d of %d literal texts"
